@@ -1,9 +1,33 @@
-(* C02 - execution never leaves the interpreter's own memory (no underflow, no wild jump). Property theorems only (checker in spec/Verify.v, proofs in proofs/VerifyProofs.v). A certificate maps instruction boundaries to (mode, lower bound on the operand-stack height above the frame base); `check` validates it; soundness is about ALL execution paths of the bytecode, all machine states satisfying the invariant, all budgets. *)
-From NL.Model Require Import VM.
-From NL.Spec Require Import Verify.
-From NL.Proofs Require VerifyProofs.
+(* C02 - execution never leaves the interpreter's own memory (no underflow, no wild jump). Property theorems only (checker in spec/Verify.v; proofs in proofs/VerifyProofs.v, Certify*.v). (1) verify_sound: a bytecode verifier (certificate = mode + lower bound on the operand-stack height above the frame base at every instruction boundary) is sound against VM.v for ALL bytecode, certificates, states and run lengths. (2) compile_certifies: the compiler ALWAYS emits code that the verifier accepts, for every tree in the parser's image. (3) Hence for EVERY source text the front end accepts, running it never performs an out-of-contract access, on any path, for any budget. *)
+From NL.Model Require Import VM Pipeline.
+From NL.Spec Require Import Verify Printer.
+From NL.Proofs Require VerifyProofs CertifyProofsC CertifyBoundaries CertifyFinal.
 Import VerifyProofs.
 Open Scope Z_scope.
+
+(* THE property: for every source text the front end accepts, no run of it (any budget) pops an empty stack, fetches or reads operands outside the code, decodes an invalid opcode / builtin byte, touches a local slot or constant out of range, returns without a frame or underflows at a call *)
+Theorem accepted_program_never_leaves_memory : forall (u : unicode) (orc : oracle) (src : text) (bc : bytecode) (budget : nat) (f : fault), front u orc src = Ok bc -> o_result (run_program orc bc budget) = Fault f -> c02_fault f = false.
+Proof. exact CertifyFinal.accepted_program_never_leaves_memory. Qed.
+
+(* ... stated on eval *)
+Theorem eval_never_leaves_memory : forall (u : unicode) (orc : oracle) (src : text) (budget : nat) (extra : Z) (o : observation) (f : fault), eval u orc src budget = Ran extra o -> o_result o = Fault f -> c02_fault f = false.
+Proof. exact CertifyFinal.eval_never_leaves_memory. Qed.
+
+(* the compiler always emits verifiable code: for every tree in the parser's image that compiles there is a certificate the checker accepts *)
+Theorem compile_certifies : forall (b : block) (bc : bytecode), wf_tree b = true -> compile b = Ok bc -> exists c : cert, check {| p_code := b_code bc; p_consts := fst (load_consts (b_constants bc) empty_heap) |} c = true.
+Proof. exact CertifyProofsC.compile_certifies. Qed.
+
+(* ... for every accepted source text *)
+Theorem front_certifies : forall (u : unicode) (orc : oracle) (src : text) (bc : bytecode), front u orc src = Ok bc -> exists c : cert, check {| p_code := b_code bc; p_consts := fst (load_consts (b_constants bc) empty_heap) |} c = true.
+Proof. exact CertifyProofsC.front_certifies. Qed.
+
+(* every jump of compiled code lands on an instruction boundary inside the code *)
+Theorem jump_targets_in_code : forall (b : block) (bc : bytecode), wf_tree b = true -> compile b = Ok bc -> forall pc bt : Z, In pc (CertifyBoundaries.boundaries (b_code bc)) -> CertifyBase.fbyte (b_code bc) pc = Some bt -> CertifyBoundaries.is_jump bt -> exists t : Z, rd16 (CertifyBase.fbyte (b_code bc)) (pc + 1) = Some t /\ In t (CertifyBoundaries.boundaries (b_code bc)) /\ 0 <= t < 2 ^ 16.
+Proof. exact CertifyBoundaries.jump_targets_in_code. Qed.
+
+(* compiled code decodes from offset 0 into whole instructions up to its last byte (control cannot run off the end mid-instruction) *)
+Theorem compile_decodes : forall (b : block) (bc : bytecode), wf_tree b = true -> compile b = Ok bc -> exists C : list CertifyBase.centry, CertifyBase.contig 0 C (zlength (b_code bc)) /\ CertifyBoundaries.boundaries (b_code bc) = map CertifyBase.e_pc C /\ (forall x : CertifyBase.centry, In x C -> CertifyBase.instr_width (b_code bc) (CertifyBase.e_pc x) = Some (CertifyBase.e_w x)).
+Proof. exact CertifyBoundaries.compile_decodes. Qed.
 
 (* one step from any state satisfying the invariant never performs an out-of-contract access (pop on empty stack, fetch or operand outside the code, invalid opcode / builtin byte, local slot or constant index out of range, missing frame, call underflow) and re-establishes the invariant *)
 Theorem verify_sound : forall (orc : oracle) (p : program) (c : cert), check p c = true -> forall s : vm, VerifyProofs.Inv p c s -> match step orc p s with | Ok (Continue s') => VerifyProofs.Inv p c s' | Fault f => c02_fault f = false | _ => True end.
@@ -35,6 +59,12 @@ Proof. exact VerifyProofs.fetch_map_correct. Qed.
 
 Example nonvacuous : VerifyProofs.ex_program <> None.
 Proof. destruct VerifyProofs.ex_inv as [p [c [H _]]]. rewrite H. discriminate. Qed.
+Print Assumptions accepted_program_never_leaves_memory.
+Print Assumptions eval_never_leaves_memory.
+Print Assumptions compile_certifies.
+Print Assumptions front_certifies.
+Print Assumptions jump_targets_in_code.
+Print Assumptions compile_decodes.
 Print Assumptions verify_sound.
 Print Assumptions run_never_leaves_memory.
 Print Assumptions inv_initial.
